@@ -376,12 +376,14 @@ READ_BINDINGS = [
     ('first-arm-of-a-nested-conditional', 'def f(g):\n    return (w.a if (w := g()) else 2) if g else 3\n', (2, 12), [(2, 20)]),
     ('at-module-level', 'import os\nr = u if (u := os.sep) else 0\nprint(r)\n', (2, 4), [(2, 10)]),
     ('second-operand-of-an-and-reads-what-the-first-binds', 'def f(g):\n    return (w := g()) and w.a\n', (2, 26), [(2, 12)]),
+    ('context-expression-reads-what-its-own-target-rebinds', 'def f(c, m):\n    x = 1\n    with (c or (y := m(x))) as x:\n        print(x, y)\n', (3, 23), [(2, 4)]),
+    ('second-item-reads-the-target-of-the-first', 'def f(a, b):\n    with a() as x, (b or (y := x)) as z:\n        print(x, y, z)\n', (2, 31), [(2, 16)]),
     ('later-comparator-reads-what-an-earlier-one-binds', 'def f(g):\n    return 0 < (w := g()) < w + 1\n', (2, 28), [(2, 16)]),
 ]
 
 
 @harness(['C02'], 'supp.linter.lint / supp.assistant.location [bindings made inside the expression that reads them]',
-         bounded='7 programs: a walrus in the test of a conditional expression read in an arm written before or after it, in a boolean operand, in a comparator; '
+         bounded='9 programs: a walrus in the test of a conditional expression read in an arm written before or after it, in a boolean operand, in a comparator; a with item whose context expression branches and reads what its target rebinds; '
                  'each binding is read by every execution that reaches the read')
 def bindings_read_inside_their_expression(run):
     """BOUNDED: C02 at its two observation points for bindings that stand to the right of (or inside the same expression as) the read that
